@@ -29,5 +29,15 @@ else:
     s = re.sub(r'<!-- seedtable -->.*?<!-- /seedtable -->',
                lambda _: '<!-- seedtable -->\n' + block +
                '\n<!-- /seedtable -->', s, flags=re.S)
+missed = sum(1 for r in rows if '| missed, then caught |' in r)
+summary = ('%d seeded changes have been confirmed so far (rounds of '
+           'sub-agents, two changes each, per claimed property); %d were '
+           'caught by the check as it stood when the change arrived and %d '
+           'were not; all %d are caught by the current quick tier '
+           '(`selftest/run_mutants.py`).' % (len(rows), len(rows) - missed,
+                                            missed, len(rows)))
+s = re.sub(r'<!-- seedsummary -->.*?<!-- /seedsummary -->',
+           lambda _: '<!-- seedsummary -->\n' + summary +
+           '\n<!-- /seedsummary -->', s, flags=re.S)
 open(p, 'w').write(s)
-print(len(rows), 'rows')
+print(len(rows), 'rows;', missed, 'missed at first')
